@@ -71,6 +71,18 @@ the bool reader must keep the legacy spelling 'True'/'False' (str of the bool) w
 unicodedata.normalize(..) counts as text altering; an altered text in a Task(..)/TaskRaw(..) keyword or in the generic copy's
 value (also in the expanded conditional form of a helper) is refuted.
 
+Round 11 additions: a row wrapped into a small immutable accessor class of the module (`record = _Record(header, row)`, `record['id']`
+with `__getitem__` returning `self._cells[self._columns[column]]`) is folded back to row[header['id']] by FX.x (c13_util._fold_records;
+a class that stores into self outside __init__ is not followed -> undecided); a **kwargs value that passes the row to a call the rule
+cannot open is undecided instead of refuted; the default column list constant is found by its content, not by its name; the generic
+Task -> raw copy may select its names up front (`names = [k for k in t.__dict__ if C]; for n in names: raw.__setattr__(n, ..)`,
+c13_util._peel_selection); io-modes reads `csv.reader(g(file))` with a private line generator g as the generator expression it
+stands for (_gen_as_comp) and refutes one that removes U+FEFF from every line (text values lose the character); converters refutes
+a formatter memoised with functools.lru_cache / cache (typed=False) that serves the bool column and a numeric column (True / 1 / 1.0
+share one cache entry; read from the module text because the normaliser splices such helpers away); order refutes a parameter
+whose default is a mutable object built at definition time (`wbs: WBS = WBS()`, `acc=[]`) that the function stores into or returns
+(_shared_defaults: state shared by all calls).
+
 Not decided: the csv module's quoting (trusted stdlib, default dialect only), a hand-rolled date parser with its own year
 pivot (undecided), custom attribute
 names that collide with Task members, tasks whose parent_id is dangling, numeric behaviour of float()/str().
@@ -1271,6 +1283,15 @@ def _kwargs_fill(ctx, o, F, r, star, consumed):
         o.refute(f, at, f"kwargs key {src(key)[:60]}", f"custom attribute is stored under `{src(key)}` instead of its header name `{kname}`")
         return
     if not good_val:
+        # a wrong cell is refuted only in a shape the rule can read: some `row[..]` subscript other than this column's, or a value
+        # that does not involve the row at all; a row wrapped into an object / passed to a helper the rule could not open is undecided
+        opaque = [n for n in ast.walk(val) if isinstance(n, ast.Call) and any(isinstance(m, ast.Name) and m.id == rowvar for a_ in list(n.args) + [k_.value for k_ in n.keywords]
+                                                                              for m in ast.walk(a_))
+                  and not (isinstance(n.func, ast.Name) and n.func.id in ('str', 'int', 'float', 'bool', 'len', 'repr'))]
+        if opaque:
+            o.undecided(f, at, val, f"custom attribute `{kname}` is filled from `{src(val)[:80]}`: the row is passed to `{src(opaque[0].func)[:40]}`, which the rule "
+                                    f"could not read as the cell of the column")
+            return
         o.refute(f, at, f"kwargs value {src(val)[:60]}", f"custom attribute `{kname}` is filled from `{src(val)}`; expected the cell of its own column")
         return
     env = KeyEnv(ctx, f)
